@@ -69,13 +69,19 @@ Qed.
 Lemma aw_envelope : envelope blk_env Altair aw_P aw_blk.
 Proof.
   constructor.
-  - intros k s Hp. apply aw_side. destruct k as [|[|[|[|[|k]]]]]; cbn in Hp; try contradiction; auto.
-  - intros s s' -> H. cbn. unfold aw_s1. rewrite H. reflexivity.
+  - intros k s Hp. apply aw_side. destruct k as [|[|[|[|[|k]]]]]; unfold aw_P in Hp.
+    + left; exact Hp.
+    + right; left; exact Hp.
+    + contradiction.
+    + right; left; exact Hp.
+    + right; right; left; exact Hp.
+    + right; right; right; exact Hp.
+  - intros s s' Hs H. unfold aw_P in *. subst s. unfold aw_s1. rewrite H. reflexivity.
   - discriminate.
   - discriminate.
   - intros s Hs. exact Hs.
-  - intros s s' -> H. cbn. unfold aw_s3. change (vfield aw_blk 4) with aw_body in H. rewrite H. reflexivity.
-  - intros s ->. reflexivity.
+  - intros s s' Hs H. unfold aw_P in *. subst s. unfold aw_s3. change (vfield aw_blk 4) with aw_body in H. rewrite H. reflexivity.
+  - intros s Hs. unfold aw_P in *. subst s. reflexivity.
   - intros s i s' _ Hne. exfalso. apply Hne. reflexivity.
   - intros s a s' _ Hin. vm_compute in Hin. contradiction.
   - intros s a s' _ Hin. vm_compute in Hin. contradiction.
